@@ -107,10 +107,31 @@ theorem sameAt_of_sameH {h h' : Heap} {n : Nat} (hs : SameH h h' n) : SameAt (to
 theorem SameH.trans {h1 h2 h3 : Heap} {n : Nat} (a : SameH h1 h2 n) (b : SameH h2 h3 n) : SameH h1 h3 n :=
   ⟨b.1.trans a.1, b.2.1.trans a.2.1, b.2.2.1.trans a.2.2.1, b.2.2.2.trans a.2.2.2⟩
 
+/-- the recursion fuel `f` covers the whole subtree of `s`: unfolding it one level less deep already gives everything -/
+def Complete (f : Nat) (h : Heap) (s : Nat) : Prop :=
+  ∃ f', f = f' + 1 ∧ abs f' (toLL h) s = abs (f' + 1) (toLL h) s
+
+theorem complete_child {f : Nat} {h : Heap} {s x : Nat} (hc : Complete (f + 1) h s) (hk : h.kind s ≠ .text)
+    (hx : x ∈ h.kids s) : Complete f h x := by
+  obtain ⟨f', e, hcs⟩ := hc
+  have e' : f' = f := by omegaId
+  subst e'
+  have hkt : (toLL h).kind s ≠ .text := by simp only [toLL_kind]; exact fun e => hk ((kindOf_text _).mp e)
+  cases f' with
+  | zero =>
+    simp only [abs, hkt, if_false, Tree.node.injEq, true_and, toLL_kids] at hcs
+    have : h.kids s = [] := List.map_eq_nil_iff.mp hcs.symm
+    rw [this] at hx; cases hx
+  | succ f'' =>
+    simp only [abs, hkt, if_false, Tree.node.injEq, true_and, toLL_kids] at hcs
+    exact ⟨f'', rfl, List.map_inj_left.mp hcs x hx⟩
+
 structure CloneSpec (f B : Nat) (h : Heap) (s : Nat) (r : Heap × Nat) : Prop where
   noAlias : NoAlias r.1
   noAttr2 : NoAttr2 r.1
   owned : Owned h → Owned r.1
+  closedAll : Closed h h.next → Closed r.1 r.1.next
+  inv : Inv h → Closed h h.next → Complete f h s → Inv r.1
   fresh : Fresh r.1
   next_le : (h.next : Nat) ≤ (r.1.next : Nat)
   frame : ∀ n : Nat, n < (h.next : Nat) → SameH h r.1 n
@@ -128,6 +149,8 @@ structure FoldInv (f B : Nat) (h : Heap) (s : Nat) (a : Heap) (done : List Nat) 
   noAlias : NoAlias a
   noAttr2 : NoAttr2 a
   owned : Owned h → Owned a
+  closedAll : Closed h h.next → Closed a a.next
+  inv : Inv h → Closed h h.next → Complete (f + 1) h s → Inv a
   fresh : Fresh a
   next_lt : (h.next : Nat) < (a.next : Nat)
   frame : ∀ n : Nat, n < (h.next : Nat) → SameH h a n
@@ -145,11 +168,24 @@ theorem closed_of_frame {h a : Heap} {B : Nat} (hcl : Closed h B) (hB : B ≤ (h
   have hcB := this.1
   exact ⟨this.1, by rw [(hf c (by omegaId)).2.1]; exact this.2⟩
 
+theorem closed_putAt {h : Heap} (hc : Closed h h.next) (s k y : Nat) (hy : y < (h.next : Nat)) (hk : h.kind y ≠ .frag) :
+    Closed (putAt h s k y) (putAt h s k y).next := by
+  intro n hn c hcm
+  show c < (h.next : Nat) ∧ h.kind c ≠ .frag
+  by_cases hns : n = s
+  · subst hns
+    rw [putAt_kids_self] at hcm
+    rcases mem_middle.mp hcm with e | hm
+    · subst e; exact ⟨hy, hk⟩
+    · exact hc n hn c hm
+  · rw [putAt_kids_other h s k y n hns] at hcm; exact hc n hn c hcm
+
 theorem fold_step {f B : Nat}
     (ih : ∀ (B : Nat) (h : Heap) (s : Nat), NoAlias h → NoAttr2 h → Fresh h → Closed h B → s < B → B ≤ (h.next : Nat) →
       CloneSpec f B h s (clone f h s true))
     {h : Heap} {s : Nat} {a : Heap} {done : List Nat} {x : Nat}
-    (hcl : Closed h B) (hB : B ≤ (h.next : Nat)) (inv : FoldInv f B h s a done) (hx : x < B) (hxk : h.kind x ≠ .frag) :
+    (hcl : Closed h B) (hB : B ≤ (h.next : Nat)) (inv : FoldInv f B h s a done) (hx : x < B) (hxk : h.kind x ≠ .frag)
+    (hxm : x ∈ h.kids s) (hst : h.kind s ≠ .text) :
     FoldInv f B h s (append (fuelOf (clone f a x true).1) (clone f a x true).1 h.next (clone f a x true).2) (done ++ [x]) := by
   have hcla := closed_of_frame hcl hB inv.frame
   have spec := ih B a x inv.noAlias inv.noAttr2 inv.fresh hcla hx (by have := inv.next_lt; omegaId)
@@ -174,7 +210,32 @@ theorem fold_step {f B : Nat}
   have par : ∀ n : Nat, n ≠ cx → (putAt a1 h.next (a1.kids h.next).length cx).parent n = a1.parent n := by
     intro n hn; simp [putAt, upd, hn]
   refine ⟨noAlias_putAt spec.noAlias _ _ _, fun n => spec.noAttr2 n,
-    fun ho => owned_putAt (spec.owned (inv.owned ho)) _ _ _, ?_, ?_, ?_, ?_, ?_, ?_, ?_⟩
+    fun ho => owned_putAt (spec.owned (inv.owned ho)) _ _ _,
+    fun hc => closed_putAt (spec.closedAll (inv.closedAll hc)) _ _ cx spec.lt hcxk, ?_, ?_, ?_, ?_, ?_, ?_, ?_, ?_⟩
+  · -- the invariant, when the fuel covers the subtree
+    intro hi hc hcs
+    have hia := inv.inv hi hc hcs
+    have hca : Closed a a.next := inv.closedAll hc
+    have hxh : ∀ g : Nat, abs g (toLL a) x = abs g (toLL h) x := by
+      intro g
+      apply abs_congr
+      intro i hi'
+      have := abs_ids_lt hcl g x hx i hi'
+      exact sameAt_of_sameH (inv.frame i (by omegaId))
+    have hcx : Complete f a x := by
+      obtain ⟨f', e, hce⟩ := complete_child hcs hst hxm
+      exact ⟨f', e, by rw [hxh, hxh]; exact hce⟩
+    have hi1 : Inv a1 := spec.inv hia hca hcx
+    have hfpos : 0 < f := by obtain ⟨f', e, _⟩ := hcx; omegaId
+    have hcxn : cx = a.next := (spec.root hfpos).1
+    have hdet : Detached a1 cx := by
+      intro n hn hm
+      by_cases hna : n < (a.next : Nat)
+      · rw [(spec.frame n hna).1] at hm
+        have := (hca n hna cx hm).1
+        omegaId
+      · rcases spec.edges n cx (by omegaId) hm with h1 | h1 <;> omegaId
+    exact inv_putAt hi1 h.next _ cx hdet
   · -- fresh
     intro n hn
     have hn1 : (a1.next : Nat) ≤ n := hn
@@ -241,17 +302,18 @@ theorem fold_all {f B : Nat}
     (ih : ∀ (B : Nat) (h : Heap) (s : Nat), NoAlias h → NoAttr2 h → Fresh h → Closed h B → s < B → B ≤ (h.next : Nat) →
       CloneSpec f B h s (clone f h s true))
     {h : Heap} {s : Nat} (hcl : Closed h B) (hB : B ≤ (h.next : Nat)) :
-    ∀ (xs : List Nat) (a : Heap) (done : List Nat), FoldInv f B h s a done → (∀ x ∈ xs, x < B ∧ h.kind x ≠ .frag) →
+    ∀ (xs : List Nat) (a : Heap) (done : List Nat), FoldInv f B h s a done →
+      (∀ x ∈ xs, x < B ∧ h.kind x ≠ .frag ∧ x ∈ h.kids s) → h.kind s ≠ .text →
       FoldInv f B h s (xs.foldl (fun a x =>
         append (fuelOf (clone f a x true).1) (clone f a x true).1 h.next (clone f a x true).2) a) (done ++ xs) := by
   intro xs
   induction xs with
-  | nil => intro a done inv _; simpa using inv
+  | nil => intro a done inv _ _; simpa using inv
   | cons x xs ihx =>
-    intro a done inv hxs
+    intro a done inv hxs hst
     rw [List.foldl_cons]
-    have := ihx _ (done ++ [x]) (fold_step ih hcl hB inv (hxs x (by simp)).1 (hxs x (by simp)).2)
-      (fun y hy => hxs y (by simp [hy]))
+    have := ihx _ (done ++ [x]) (fold_step ih hcl hB inv (hxs x (by simp)).1 (hxs x (by simp)).2.1
+      (hxs x (by simp)).2.2 hst) (fun y hy => hxs y (by simp [hy])) hst
     simpa using this
 
 /-- the state right after `node = type(self)(); node.parentNode = None; node.ownerDocument = self.ownerDocument` -/
@@ -281,7 +343,7 @@ theorem clone_succ_eq (f : Nat) (h : Heap) (s : Nat) (ha : NoAlias h) (hb : NoAt
 theorem foldInv_root {f B : Nat} {h : Heap} {s : Nat} (ha : NoAlias h) (hb : NoAttr2 h) (hf : Fresh h) (hB : B ≤ (h.next : Nat)) :
     FoldInv f B h s (cloneRoot h s) [] := by
   have hne : ∀ n : Nat, n < (h.next : Nat) → n ≠ h.next := fun n hn => by omegaId
-  refine ⟨?_, ?_, ?_, ?_, ?_, ?_, ?_, ?_, ?_, ?_⟩
+  refine ⟨?_, ?_, ?_, ?_, ?_, ?_, ?_, ?_, ?_, ?_, ?_, ?_⟩
   · intro n; simp only [cloneRoot, upd]; split
     · rfl
     · exact ha n
@@ -292,6 +354,39 @@ theorem foldInv_root {f B : Nat} {h : Heap} {s : Nat} (ha : NoAlias h) (hb : NoA
     simp only [cloneRoot, upd]; split
     · exact ho s
     · exact ho n
+  · intro hc n hn c hcm
+    simp only [cloneRoot, upd] at hn hcm ⊢
+    by_cases hnv : n = h.next
+    · simp [hnv] at hcm
+    · simp only [hnv, if_false] at hcm
+      have hn' : n < (h.next : Nat) := by omegaId
+      have := hc n hn' c hcm
+      have hcv : c ≠ h.next := by have := this.1; omegaId
+      simp only [hcv, if_false]
+      exact ⟨by have := this.1; omegaId, this.2⟩
+  · -- the invariant: the fresh node lists nothing and is listed nowhere
+    intro hi hc _
+    obtain ⟨i1, i2⟩ := hi
+    have hkids : ∀ n : Nat, n ≠ h.next → (cloneRoot h s).kids n = h.kids n := fun n hn => by simp [cloneRoot, upd, hn]
+    have hkv : (cloneRoot h s).kids h.next = [] := by simp [cloneRoot, upd]
+    refine ⟨?_, ?_⟩
+    · intro n c hn hcm
+      by_cases hnv : n = h.next
+      · rw [hnv, hkv] at hcm; cases hcm
+      · rw [hkids n hnv] at hcm
+        have hnlt : n < (h.next : Nat) := by
+          apply Nat.lt_of_not_le; intro hle
+          rw [hf n hle] at hcm; cases hcm
+        have hcl' := (hc n hnlt c hcm).1
+        have hcv : c ≠ h.next := by omegaId
+        have hkn : h.kind n ≠ .frag := by simpa [cloneRoot, upd, hnv] using hn
+        simp [cloneRoot, upd, hcv, i1 n c hkn hcm]
+    · intro n hn
+      by_cases hnv : n = h.next
+      · rw [hnv, hkv]; exact List.nodup_nil
+      · rw [hkids n hnv]
+        have hkn : h.kind n ≠ .frag := by simpa [cloneRoot, upd, hnv] using hn
+        exact i2 n hkn
   · intro n hn
     have : n ≠ h.next := by simp only [cloneRoot] at hn; omegaId
     simp only [cloneRoot, upd, this, if_false]
@@ -318,7 +413,7 @@ theorem clone_spec : ∀ (f B : Nat) (h : Heap) (s : Nat), NoAlias h → NoAttr2
   | zero =>
     intro B h s ha hb hf hcl hs hB
     simp only [clone]
-    refine ⟨ha, hb, id, hf, Nat.le_refl _, fun n _ => ⟨rfl, rfl, rfl, rfl⟩, fun n _ _ => rfl, by omegaId, fun hk => hk, ?_,
+    refine ⟨ha, hb, id, id, fun _ _ hc => by obtain ⟨f', e, _⟩ := hc; omegaId, hf, Nat.le_refl _, fun n _ => ⟨rfl, rfl, rfl, rfl⟩, fun n _ _ => rfl, by omegaId, fun hk => hk, ?_,
       Or.inl hs, fun g hg => absurd hg (Nat.not_lt_zero _), fun h0 => absurd h0 (Nat.lt_irrefl _)⟩
     intro n c hn hc
     rw [hf n hn] at hc; cases hc
@@ -331,7 +426,7 @@ theorem clone_spec : ∀ (f B : Nat) (h : Heap) (s : Nat), NoAlias h → NoAttr2
     · -- a text node: no children are copied
       simp only [hk, if_true]
       obtain ⟨k1, k2, k3, k4⟩ := root.vfields
-      refine ⟨root.noAlias, root.noAttr2, root.owned, root.fresh, by have := root.next_lt; omegaId, root.frame, root.pframe, root.next_lt,
+      refine ⟨root.noAlias, root.noAttr2, root.owned, root.closedAll, root.inv, root.fresh, by have := root.next_lt; omegaId, root.frame, root.pframe, root.next_lt,
         fun _ => by rw [k1, hk]; simp, root.edges, Or.inr (Nat.le_refl _), ?_, fun _ => ⟨rfl, k4⟩⟩
       intro g _
       have e1 : ∀ g, abs g (toLL (cloneRoot h s)) h.next = .text h.next (h.text s) := by
@@ -345,14 +440,14 @@ theorem clone_spec : ∀ (f B : Nat) (h : Heap) (s : Nat), NoAlias h → NoAttr2
       subst hi
       exact ⟨Nat.le_refl _, root.next_lt⟩
     · simp only [hk, if_false]
-      have hxs : ∀ x ∈ h.kids s, x < B ∧ h.kind x ≠ .frag := fun x hx => hcl s hs x hx
-      have fin := fold_all ih hcl hB (h.kids s) (cloneRoot h s) [] root hxs
+      have hxs : ∀ x ∈ h.kids s, x < B ∧ h.kind x ≠ .frag ∧ x ∈ h.kids s := fun x hx => ⟨(hcl s hs x hx).1, (hcl s hs x hx).2, hx⟩
+      have fin := fold_all ih hcl hB (h.kids s) (cloneRoot h s) [] root hxs hk
       simp only [List.nil_append] at fin
       generalize (h.kids s).foldl (fun a x =>
         append (fuelOf (clone f a x true).1) (clone f a x true).1 h.next (clone f a x true).2) (cloneRoot h s) = a at fin ⊢
       obtain ⟨k1, k2, k3, k4⟩ := fin.vfields
       have hkt : kindOf (h.kind s) ≠ .text := fun e => hk ((kindOf_text _).mp e)
-      refine ⟨fin.noAlias, fin.noAttr2, fin.owned, fin.fresh, by have := fin.next_lt; omegaId, fin.frame, fin.pframe, fin.next_lt,
+      refine ⟨fin.noAlias, fin.noAttr2, fin.owned, fin.closedAll, fin.inv, fin.fresh, by have := fin.next_lt; omegaId, fin.frame, fin.pframe, fin.next_lt,
         fun hnf => by rw [k1]; exact hnf, fin.edges, Or.inr (Nat.le_refl _), ?_, fun _ => ⟨rfl, k4⟩⟩
       intro g hg
       cases g with
@@ -373,5 +468,50 @@ theorem clone_spec : ∀ (f B : Nat) (h : Heap) (s : Nat), NoAlias h → NoAttr2
         · subst e; exact ⟨Nat.le_refl _, fin.next_lt⟩
         · have := ki i hi
           exact ⟨by omegaId, this.2⟩
+
+/-! ### a clone keeps the heap acyclic -/
+
+/-- an upper bound of `r` on the nodes below `n` -/
+def rankBound (r : Nat → Nat) : Nat → Nat
+  | 0 => 0
+  | n + 1 => max (rankBound r n) (r n)
+
+theorem le_rankBound (r : Nat → Nat) : ∀ (n c : Nat), c < n → r c ≤ rankBound r n := by
+  intro n
+  induction n with
+  | zero => intro c hc; omega
+  | succ n ih =>
+    intro c hc
+    simp only [rankBound]
+    by_cases e : c = n
+    · subst e; exact Nat.le_max_right _ _
+    · exact Nat.le_trans (ih c (by omega)) (Nat.le_max_left _ _)
+
+/-- old edges keep their ranks; the edges of the fresh nodes lead to old nodes or to fresher ones -/
+theorem acyclic_of_cloneSpec {f B : Nat} {h : Heap} {s : Nat} {r : Heap × Nat} (spec : CloneSpec f B h s r)
+    (hB : B ≤ (h.next : Nat)) (hcl : Closed h h.next) (hac : Acyclic h) : Acyclic r.1 := by
+  obtain ⟨r0, hr0⟩ := hac
+  refine ⟨fun n => if n < (h.next : Nat) then r0 n else rankBound r0 h.next + 1 + ((r.1.next : Nat) - n), ?_⟩
+  intro n c hc
+  by_cases hn : n < (h.next : Nat)
+  · rw [(spec.frame n hn).1] at hc
+    have hcl' := (hcl n hn c hc).1
+    have hcn : c < (h.next : Nat) := hcl'
+    simp only [hn, hcn, if_true]
+    exact hr0 n c hc
+  · have hn' : (h.next : Nat) ≤ n := Nat.le_of_not_lt hn
+    have hnN : n < (r.1.next : Nat) := by
+      apply Nat.lt_of_not_le
+      intro hle
+      rw [spec.fresh n hle] at hc; cases hc
+    simp only [hn, if_false]
+    rcases spec.edges n c hn' hc with h1 | h1
+    · have hcn : c < (h.next : Nat) := Nat.lt_of_lt_of_le h1 hB
+      simp only [hcn, if_true]
+      have := le_rankBound r0 h.next c hcn
+      omegaId
+    · have hcn : ¬ c < (h.next : Nat) := by omegaId
+      simp only [hcn, if_false]
+      omegaId
 
 end PlasVerif.Proofs.DomClone
